@@ -106,6 +106,7 @@ structure WSpec where
   mode    : WMode
   swallow : Bool        -- worker catches CancelledError and returns normally
   resume  : Bool := false   -- worker catches its *first* CancelledError and goes on awaiting (it obeys the next one)
+  awaits  : Nat := 0        -- gated worker: how many *further* suspension points it has after its first one
 deriving DecidableEq, Repr, Inhabited
 
 /-- a synchronous pool call made from inside user code the pool runs (worker start, callback, iterator pull) -/
@@ -164,6 +165,8 @@ structure PTask where
   nCC        : Nat                 -- ghost: how often the cancel callback was entered
   wasCancelled : Bool              -- ghost: the coroutine ended by cancellation (`except CancelledError` was taken)
   nSaw       : Nat                 -- ghost: how many `CancelledError`s the worker has observed
+  awaitsLeft : Nat := 0            -- suspension points the worker still has ahead of it after the current one (set at its
+                                   -- first suspension from `WSpec.awaits`; behaviour, not ghost)
 deriving Repr, Inhabited
 
 structure Item where
